@@ -10,6 +10,7 @@ import "context"
 func init() {
 	vRegister("ZZ_C10_Bulk", ZZ_C10_Bulk)
 	vRegister("ZZ_C10_Single", ZZ_C10_Single)
+	vRegister("ZZ_C10_BulkStale", ZZ_C10_BulkStale)
 }
 
 func ZZ_C10_Bulk() {
@@ -198,4 +199,96 @@ func ZZ_C10_Single() {
 		s.step(zzOpGetLoadOK, 2, "c10s.after_panic")
 		s.observe("c10s.final")
 	}
+}
+
+type zzBulkLoader struct {
+	load, reload func(keys []int) (map[int]int, error)
+	loads, reloads int
+	loadKeys, reloadKeys [zzNK + 1]int
+}
+
+func (b *zzBulkLoader) BulkLoad(ctx context.Context, keys []int) (map[int]int, error) {
+	b.loads++
+	for _, k := range keys {
+		b.loadKeys[k]++
+	}
+	return b.load(keys)
+}
+
+func (b *zzBulkLoader) BulkReload(ctx context.Context, keys []int, old []int) (map[int]int, error) {
+	b.reloads++
+	for _, k := range keys {
+		b.reloadKeys[k]++
+	}
+	return b.reload(keys)
+}
+
+// ZZ_C10_BulkStale: BulkGet over entries that are due for refresh (stale but alive) and a missing key:
+// hits are returned with the value cached at that moment; the reload outcome (full, partial, error with a
+// partial or nil map) maps to the cache as documented: success replaces, a key missing from a successful
+// reload is removed, a failed reload leaves every entry unchanged.
+func ZZ_C10_BulkStale() {
+	cfg := zzCfgFromParams()
+	cfg.deferred = false
+	s := zzNewSeq(cfg, "c10r")
+	c := s.env.c
+	s.env.clk.now = zzTime("t0")
+	s.step(zzOpSet, 1, "c10r.prefix")
+	s.step(zzOpSet, 2, "c10r.prefix")
+	s.advance()
+	mode := vChoice("reload", 4) // 0 full, 1 partial (key 2 not found), 2 error + partial map, 3 error + nil map
+	rnames := []string{"full", "partial", "error_partial", "error_nil"}
+	vScenario("reload=" + rnames[mode])
+	stale1 := s.m[1].ref <= s.now()
+	stale2 := s.m[2].ref <= s.now()
+	old1, old2 := s.m[1].val, s.m[2].val
+	oldRef1, oldRef2 := s.m[1].ref, s.m[2].ref
+	n1, n2, n3 := s.fresh(), s.fresh(), s.fresh()
+	bl := &zzBulkLoader{
+		load: func(keys []int) (map[int]int, error) { return map[int]int{3: n3}, nil },
+		reload: func(keys []int) (map[int]int, error) {
+			res := map[int]int{}
+			switch mode {
+			case 0:
+				res[1], res[2] = n1, n2
+			case 1, 2:
+				res[1] = n1
+			case 3:
+				return nil, zzErrLoad
+			}
+			if mode == 2 {
+				return res, zzErrLoad
+			}
+			return res, nil
+		},
+	}
+	got, err := c.BulkGet(context.Background(), []int{1, 2, 3}, bl)
+	vAssert(err == nil, "c10r.no_error_from_background_reload")
+	vAssert(got[1] == old1 && got[2] == old2, "c10r.hits_return_value_cached_at_that_moment")
+	vAssert(got[3] == n3 && len(got) == 3, "c10r.miss_loaded_and_returned")
+	vAssert(bl.loads == 1 && bl.loadKeys[3] == 1 && bl.loadKeys[1] == 0 && bl.loadKeys[2] == 0, "c10r.bulkload_once_for_misses_only")
+	if !stale1 && !stale2 {
+		vAssert(bl.reloads == 0, "c10r.fresh_entries_are_not_reloaded")
+	} else {
+		vAssert(bl.reloads == 1, "c10r.bulkreload_once")
+		vAssert((bl.reloadKeys[1] == 1) == stale1 && (bl.reloadKeys[2] == 1) == stale2 && bl.reloadKeys[3] == 0, "c10r.bulkreload_exactly_the_stale_keys")
+	}
+	// the cache afterwards
+	e1, ok1 := c.GetEntryQuietly(1)
+	e2, ok2 := c.GetEntryQuietly(2)
+	e3, ok3 := c.GetEntryQuietly(3)
+	vAssert(ok3 && e3.Value == n3, "c10r.loaded_key_cached")
+	check := func(stale bool, supplied bool, ok bool, e Entry[int, int], oldV, newV int, oldRef int64, tag string) {
+		switch {
+		case !stale || mode >= 2:
+			vAssert(ok && e.Value == oldV, "c10r.failed_or_no_reload_leaves_entry_unchanged"+tag)
+			vAssert(ok && e.RefreshableAtNano == oldRef, "c10r.failed_or_no_reload_leaves_refresh_time"+tag)
+		case supplied:
+			vAssert(ok && e.Value == newV, "c10r.successful_reload_replaces"+tag)
+		default:
+			vAssert(!ok, "c10r.not_found_on_reload_removes"+tag)
+		}
+	}
+	check(stale1, true, ok1, e1, old1, n1, oldRef1, "")
+	check(stale2, mode == 0, ok2, e2, old2, n2, oldRef2, "")
 }
